@@ -198,6 +198,12 @@ def run_C03(ctx):
     ctx.l2_phase("reduce-python-layer", "Session", consts, ("l2replay", "h_generic"), invariants=["Closed"], seed_tlc=True,
                  require_actions=["ReduceOp"], sample_cases=(12000 if ctx.quick() else 200000), timeout=900,
                  reuse=(r1 if ctx.quick() else None))
+    # every reducer on every leaf dtype (values 0 and 1 fit all of them): identities of empty groups per dtype, bools, floats
+    consts = session_consts(OpSet='{"reduce"}', Classes='{"ListOffset","IndexedOption","Regular"}', MaxDepth="1", Axes="{-1,0,1}",
+                            LeafSet='{Numpy(dt, d) : dt \\in {"float64", "float32", "int32", "int16", "int8", "uint8", "uint32", "bool"}, '
+                                    'd \\in {<<>>, <<1>>, <<0, 1>>, <<1, 1, 0>>}}', ReduceArgs="AllReduceArgs")
+    ctx.tlc_phase("reduce-dtypes", "Session", consts, invariants=["Refines", "Closed"],
+                  require_actions=["ReduceOp", "WrapListOffset"], sample_cases=(150000 if ctx.quick() else None))
     ctx.chain_phase("chains-code-to-spec", (4000 if ctx.quick() else 60000), 5, ops={"reduce"})
     ctx.pychain_phase("python-chains-code-to-spec", (4000 if ctx.quick() else 60000), 5, ops={"reduce"})
     return ctx.finish(assumptions=["leaf values are small integers incl. ties and zeros; float accuracy is out of scope",
